@@ -398,6 +398,19 @@ def dense_history_strategy(max_steps: int):
     return st.fixed_dictionaries({"root": st.sampled_from(["dfg", "module"]), "steps": st.lists(step, min_size=4, max_size=max_steps)})
 
 
+def churn_strategy(max_steps: int):
+    """Deep hierarchies under add/delete churn: several indices free at once, below and above the parents
+    that get new children."""
+    from vlib.asts import weighted
+
+    step = weighted(
+        (4, st.tuples(st.just("add_node"), st.sampled_from(["dfg", "dfg", "dfg", "custom", "noop", "tag"]), SEL, st.one_of(st.none(), st.integers(0, 2)), st.none()).map(list)),
+        (4, st.tuples(st.just("delete_node"), SEL).map(list)),
+        (1, st.tuples(st.just("add_link"), SEL, st.integers(0, 1), SEL, st.integers(0, 1)).map(list)),
+    )
+    return st.fixed_dictionaries({"root": st.sampled_from(["module", "dfg"]), "steps": st.lists(step, min_size=8, max_size=max_steps)})
+
+
 def insert_churn_strategy(max_steps: int):
     """Hosts and inserted HUGRs that both went through add/delete churn with index reuse."""
     from vlib.asts import weighted
